@@ -646,7 +646,7 @@ def to_ovld(x):
     """Return whether the argument is an ovld function/method."""
     x = getattr(x, "__ovld__", x)
     if inspect.isfunction(x):
-        return ovld(x, fresh=True)
+        return ovld(x, fresh=True).__ovld__
     else:
         return x if isinstance(x, Ovld) else None
 
